@@ -2,6 +2,11 @@
 // all seven entity kinds, mirrored by a uid-keyed value model.
 #pragma once
 #include "interp.hh"
+#include <OpenVolumeMesh/Attribs/ColorAttrib.hh>
+#include <OpenVolumeMesh/Attribs/InterfaceAttrib.hh>
+#include <OpenVolumeMesh/Attribs/StatusAttrib.hh>
+#include <OpenVolumeMesh/Attribs/TexCoordAttrib.hh>
+#include <memory>
 
 namespace vf {
 
@@ -106,6 +111,73 @@ inline std::unique_ptr<PropBase> find_prop_kt(PolyMesh &m, int kind, int type, c
   }
 }
 
+// ---- attribute classes (C03 observes them too): views on StatusAttrib / ColorAttrib / TexCoordAttrib / InterfaceAttrib ----
+// one set of attribute objects per mesh, shared by the views; the attributes own their properties under fixed names
+struct AttribSet {
+  PolyMesh &m;
+  ColorAttrib<Geometry::Vec4f> col;
+  TexCoordAttrib<Geometry::Vec2f> tex;
+  InterfaceAttrib ifc;
+  StatusAttrib st;
+  static Geometry::Vec4f colv(int c) { return Geometry::Vec4f((float)c, 0.5f * (float)c, -(float)c, 1.0f); }
+  static Geometry::Vec2f texv(int c) { return Geometry::Vec2f((float)c, -0.25f * (float)c); }
+  static const int COLOR_DEF = 3;
+  explicit AttribSet(PolyMesh &mesh) : m(mesh), col(mesh, colv(COLOR_DEF)), tex(mesh, texv(COLOR_DEF)), ifc(mesh), st(mesh) {}
+};
+enum AttribWhich { AT_COLOR, AT_STATUS, AT_INTERFACE, AT_TEXCOORD, AT_COUNT };
+static const char *attrib_label[] = {"ColorAttrib<Vec4f>", "StatusAttrib(tagged/selected/hidden)", "InterfaceAttrib", "TexCoordAttrib<Vec2f>"};
+
+template <class H, class Tag, class StoredT> struct AttribView : PropBase {
+  std::shared_ptr<AttribSet> set;
+  int which;
+  std::string propname;
+  AttribView(std::shared_ptr<AttribSet> s, int w, std::string pn) : set(std::move(s)), which(w), propname(std::move(pn)) {}
+  size_t size() const override { auto q = set->m.template get_property<StoredT, Tag>(propname); return q ? q->size() : (size_t)-1; }
+  static int status_code(const OpenVolumeMeshStatus &s) { return (s.tagged() ? 1 : 0) | (s.selected() ? 2 : 0) | (s.hidden() ? 4 : 0); }
+  bool equals(size_t idx, int code) const override {
+    H h((int)idx);
+    const AttribSet &cs = *set;
+    if constexpr (std::is_same<StoredT, Geometry::Vec4f>::value) return cs.col[h] == AttribSet::colv(code);
+    else if constexpr (std::is_same<StoredT, Geometry::Vec2f>::value) return cs.tex[h] == AttribSet::texv(code);
+    else if constexpr (std::is_same<StoredT, bool>::value) return (bool)cs.ifc[h] == ((code & 1) != 0);
+    else return status_code(cs.st[h]) == (code & 7);
+  }
+  void write(size_t idx, int code) override {
+    H h((int)idx);
+    if constexpr (std::is_same<StoredT, Geometry::Vec4f>::value) set->col[h] = AttribSet::colv(code);
+    else if constexpr (std::is_same<StoredT, Geometry::Vec2f>::value) set->tex[h] = AttribSet::texv(code);
+    else if constexpr (std::is_same<StoredT, bool>::value) set->ifc[h] = (code & 1) != 0;
+    else { auto &x = set->st[h]; x.set_tagged(code & 1); x.set_selected(code & 2); x.set_hidden(code & 4); }
+  }
+  std::string show(size_t idx) const override {
+    std::ostringstream o;
+    H h((int)idx);
+    const AttribSet &cs = *set;
+    if constexpr (std::is_same<StoredT, Geometry::Vec4f>::value) o << cs.col[h];
+    else if constexpr (std::is_same<StoredT, Geometry::Vec2f>::value) o << cs.tex[h];
+    else if constexpr (std::is_same<StoredT, bool>::value) o << (bool)cs.ifc[h];
+    else o << "status bits " << status_code(cs.st[h]);
+    return o.str();
+  }
+  bool attached() const override { return true; }
+  const void *identity() const override { auto q = set->m.template get_property<StoredT, Tag>(propname); return q ? (const void *)&q->data_vector() : nullptr; }
+  bool persistent() const override { auto q = set->m.template get_property<StoredT, Tag>(propname); return q && q->persistent(); }
+};
+
+template <class StoredT> std::unique_ptr<PropBase> attrib_view_k(std::shared_ptr<AttribSet> set, int which, int kind, const std::string &pn) {
+  if (kind == PK_V) return std::unique_ptr<PropBase>(new AttribView<VertexHandle, Entity::Vertex, StoredT>(set, which, pn));
+  if constexpr (!std::is_same<StoredT, Geometry::Vec2f>::value) {
+    if (kind == PK_E) return std::unique_ptr<PropBase>(new AttribView<EdgeHandle, Entity::Edge, StoredT>(set, which, pn));
+    if (kind == PK_F) return std::unique_ptr<PropBase>(new AttribView<FaceHandle, Entity::Face, StoredT>(set, which, pn));
+  }
+  if constexpr (std::is_same<StoredT, Geometry::Vec4f>::value || std::is_same<StoredT, OpenVolumeMeshStatus>::value) {
+    if (kind == PK_HE) return std::unique_ptr<PropBase>(new AttribView<HalfEdgeHandle, Entity::HalfEdge, StoredT>(set, which, pn));
+    if (kind == PK_HF) return std::unique_ptr<PropBase>(new AttribView<HalfFaceHandle, Entity::HalfFace, StoredT>(set, which, pn));
+    if (kind == PK_C) return std::unique_ptr<PropBase>(new AttribView<CellHandle, Entity::Cell, StoredT>(set, which, pn));
+  }
+  return nullptr;
+}
+
 struct PropSlot {
   int kind, type, flavour, defcode;
   std::string name;
@@ -143,6 +215,38 @@ struct PropBank {
     slots.push_back(std::move(s));
     return true;
   }
+  // attribute-backed slot: which in AttribWhich; the kind is mapped to one the attribute offers
+  std::vector<std::weak_ptr<AttribSet>> attrib_sets;  // one per sut (recreated when the last view was dropped)
+  bool create_attrib(int which, int kindsel, std::string &render) {
+    if (slots.size() >= max_slots) { I.count("skip:prop_slots_full"); return true; }
+    which %= AT_COUNT;
+    static const int k6[6] = {PK_V, PK_E, PK_HE, PK_F, PK_HF, PK_C}, k3[3] = {PK_V, PK_E, PK_F};
+    int kind = which == AT_COLOR || which == AT_STATUS ? k6[kindsel % 6] : which == AT_INTERFACE ? k3[kindsel % 3] : PK_V;
+    static const char *color_names[] = {"vertex_color", "edge_color", "halfedge_color", "face_color", "halfface_color", "cell_color", ""};
+    static const char *status_names[] = {"vertex_status", "edge_status", "halfedge_status", "face_status", "halfface_status", "cell_status", ""};
+    std::string pn = which == AT_COLOR ? color_names[kind] : which == AT_STATUS ? status_names[kind] : which == AT_INTERFACE ? "interface" : "vertex_texcoord";
+    std::string name = std::string("attrib:") + attrib_label[which] + ":" + pkind_name[kind];
+    for (auto &sp : slots) if (sp->name == name) { I.count("skip:attrib_slot_taken"); return true; }
+    std::unique_ptr<PropSlot> s(new PropSlot());
+    s->kind = kind; s->type = PT_INT; s->flavour = 3; s->name = name;
+    s->defcode = (which == AT_COLOR || which == AT_TEXCOORD) ? AttribSet::COLOR_DEF : 0;
+    attrib_sets.resize(I.suts.size());
+    for (size_t i = 0; i < I.suts.size(); ++i) {
+      std::shared_ptr<AttribSet> set = attrib_sets[i].lock();
+      if (!set) { set = std::make_shared<AttribSet>(I.suts[i]->mesh); attrib_sets[i] = set; }
+      std::unique_ptr<PropBase> v;
+      if (which == AT_COLOR) v = attrib_view_k<Geometry::Vec4f>(set, which, kind, pn);
+      else if (which == AT_STATUS) v = attrib_view_k<OpenVolumeMeshStatus>(set, which, kind, pn);
+      else if (which == AT_INTERFACE) v = attrib_view_k<bool>(set, which, kind, pn);
+      else v = attrib_view_k<Geometry::Vec2f>(set, which, kind, pn);
+      if (!v) return true;
+      s->inst.push_back(std::move(v));
+    }
+    render = "create attribute view " + name;
+    I.count(std::string("attrib_slots:") + attrib_label[which]);
+    slots.push_back(std::move(s));
+    return true;
+  }
   // write value to the k-th live entity of the property's kind
   bool write(int slot, int k, int code, std::string &render) {
     if (slots.empty()) { I.count("skip:no_prop"); return true; }
@@ -162,6 +266,9 @@ struct PropBank {
   void drop(int slot, std::string &render) {
     if (slots.empty()) return;
     size_t i = (size_t)slot % slots.size();
+    // attribute objects own named shared (InterfaceAttrib: persistent) properties: a re-created view would see the
+    // old values again, which is correct behaviour but outside this value model - attribute views are kept
+    if (slots[i]->flavour == 3) { I.count("skip:drop_attrib_view"); return; }
     render = "drop handle of '" + slots[i]->name + "'";
     slots.erase(slots.begin() + (long)i);
   }
@@ -189,7 +296,10 @@ struct PropBank {
       }
       int bk = base_kind(s.kind);
       size_t nslots = sut.lay.uid_at[bk].size() * (half(s.kind) ? 2 : 1);
-      if (p.size() != nslots) {
+      // attribute views find their property by name; after clear(true) the attribute's properties are anonymous
+      // (still usable through the attribute): the size is then not observable, element access stays checked
+      if (p.size() == (size_t)-1) I.count("attrib_size_not_observable_after_clear_props");
+      else if (p.size() != nslots) {
         o << pkind_name[s.kind] << " property '" << s.name << "' has " << p.size() << " elements, mesh has " << nslots << " " << pkind_name[s.kind] << " slots";
         return o.str();
       }
